@@ -352,9 +352,24 @@ fn mutate(rng: &mut Rng, r: &[u8], with30: bool) -> Vec<u8> {
                 }
             }
             0 | 1 => {
-                // SNP
+                // SNP; half of the time (when there is one) placed just in front of or behind an N run
                 if len > 0 {
-                    let p = rng.below(len as u64) as usize;
+                    let mut p = rng.below(len as u64) as usize;
+                    if rng.chance(1, 2) {
+                        let runs: Vec<usize> = (1..len).filter(|&i| t[i] == 4 && t[i - 1] != 4).collect();
+                        if !runs.is_empty() {
+                            let s0 = *rng.pick(&runs);
+                            if rng.chance(1, 2) {
+                                p = s0.saturating_sub(rng.range(1, 12) as usize);
+                            } else {
+                                let mut e = s0;
+                                while e < len && t[e] == 4 {
+                                    e += 1;
+                                }
+                                p = (e + rng.below(12) as usize).min(len - 1);
+                            }
+                        }
+                    }
                     t[p] = rand_sym(rng, with30);
                 }
             }
@@ -439,7 +454,18 @@ fn random_pair(rng: &mut Rng, max_len: usize, with30: bool) -> (u32, Vec<u8>, Ve
     };
     let rl = rng.range(0, cap as u64) as usize;
     let ref30 = with30 && rng.chance(1, 3);
-    let r = rand_seq(rng, rl, ref30);
+    let mut r = rand_seq(rng, rl, ref30);
+    // assembly gaps: N runs (>= MIN_NRUN_LEN) that reference and target SHARE, so that matches,
+    // backward extension and literals meet N-run tokens on both sides
+    if rl >= 8 && rng.chance(1, 3) {
+        for _ in 0..rng.range(1, 4) {
+            let l = (if rng.chance(1, 4) { rng.range(1, 3) } else { rng.range(4, 60) } as usize).min(r.len() / 2);
+            let p = rng.below((r.len() - l) as u64 + 1) as usize;
+            for q in p..p + l {
+                r[q] = 4;
+            }
+        }
+    }
     let (t, origin): (Vec<u8>, &'static str) = match rng.below(12) {
         0 => (r.clone(), "equal"),
         1 => {
